@@ -59,6 +59,7 @@ def run_scenario(item):
     out = {'id': item['id'], 'obs': obs, 'cfg': {'mode': mode, 'pool_size': pool_size, 'ps_cache': ps_cache,
                                                  'early': early_variant, 'mode_at': item.get('mode_at', 'pool')}}
     with World('pc') as w:
+        cancel_downs = []
         be = w.backend('p0', role='primary')
         if item.get('mode_at') == 'user':
             # the pool mode is given for the user and contradicts the pool-level setting: the user's one counts
@@ -293,6 +294,8 @@ def run_scenario(item):
                 holds = prev_state.get('holds', {}).get(name, False) if prev_state else False
                 mark = w.log.mark()
                 variant = rng.choice(['valid', 'valid', 'valid', 'valid', 'random', 'wrong_secret'])
+                if item.get('family') == 'tx2s':
+                    variant = 'valid'      # (histories sampled for the cancel map: the client's own key)
                 w.log.add(ev='cancel_sent', client=name, holds=holds, variant=variant)
                 if c.key:
                     if variant == 'valid':
@@ -309,6 +312,35 @@ def run_scenario(item):
                 else:
                     time.sleep(0.05)
                 w.log.add(ev='cancel_done', client=name)
+            elif op == 'cancel_down':
+                # the server's listener is down for a moment while this client's cancel request is made: the pooler's
+                # connect is refused and the request is dropped (established sessions go on)
+                c = clients[name]
+                holds = prev_state.get('holds', {}).get(name, False) if prev_state else False
+                w.log.add(ev='cancel_sent', client=name, holds=holds, variant='listener_down')
+                nh = len(w.hooks())
+                be.listener_down()
+                csock = None
+                try:
+                    if c.key:
+                        csock = send_cancel(w.port, c.key[0], c.key[1], wait=False)
+                        # the listener stays down until the pooler has dealt with the request (the `cancel_done` hook:
+                        # Server::cancel has returned), a tenth of a second at most
+                        end = time.time() + 0.1
+                        while time.time() < end:
+                            if any(h['ev'] == 'cancel_done' for h in w.hooks()[nh:]):
+                                break
+                            time.sleep(0.005)
+                finally:
+                    be.listener_up()
+                    if csock is not None:
+                        csock.close()
+                time.sleep(0.01)
+                w.log.add(ev='cancel_done', client=name)
+                cancel_downs.append(time.time())
+        # a request the pooler kept (it must not) would be tried again later: give it the time to show
+        if cancel_downs:
+            time.sleep(max(0.0, 1.1 - (time.time() - cancel_downs[-1])))
         # ---- wind down: everyone leaves, wait until pgcat has dropped every client task
         # (a client that is still waiting for a connection gets it once the others have left: let it finish first, otherwise
         # its statement runs after the record of its leaving and the ownership bookkeeping of the trace has no end for it)
@@ -458,13 +490,19 @@ def hook_trace(hooks, sc, pool_size, mode, be_events=(), settles=()):
 
     # what the backends saw for the k-th cancel attempt of the harness (lock-step: FIFO)
     attempts = []
+    strays = []      # CancelRequests that reached a backend outside every attempt of the harness
     cur = None
     sess_key = {}
+    last_user = {}
     for e in be_events:
         if e['ev'] == 'connect':
             sess_key[e['spid']] = None
+        if e['ev'] == 'exec':
+            # (a statement of the pooler's own - the clean-up when a connection is given back - ends the previous
+            # client's use of the session just as another client's statement does)
+            last_user[e['spid']] = e.get('client') or '(pooler)'
         if e['ev'] == 'cancel_sent':
-            cur = {'reqs': [], 'variant': e.get('variant')}
+            cur = {'reqs': [], 'variant': e.get('variant'), 'client': e.get('client')}
             attempts.append(cur)
         elif e['ev'] == 'cancel_done':
             cur = None
@@ -472,7 +510,11 @@ def hook_trace(hooks, sc, pool_size, mode, be_events=(), settles=()):
             if cur is not None:
                 cur['reqs'].append(e)
             else:
-                attempts.append({'reqs': [e], 'variant': 'unsolicited'})
+                # the only request the pooler could still be working on is one whose connect was refused
+                origin = max([k for k, a in enumerate(attempts) if a['variant'] == 'listener_down'], default=-1)
+                requester = attempts[origin]['client'] if origin >= 0 else None
+                strays.append({'req': e, 'origin': origin,
+                               'used_by_other': last_user.get(e['target_pid']) not in (None, requester)})
     nlook = 0
     keys = {}
     for s0 in be_events:
@@ -510,10 +552,17 @@ def hook_trace(hooks, sc, pool_size, mode, be_events=(), settles=()):
             if reqs:
                 target = S(reqs[0]['target_pid']) if reqs[0]['target_pid'] in spid else -1
             # a request with a key nobody was issued is a client of its own
-            who = P(h['pid']) if att['variant'] == 'valid' else P(('invalid-key', nlook))
+            who = P(h['pid']) if att['variant'] in ('valid', 'listener_down') else P(('invalid-key', nlook))
             recs.append({'ev': ev, 'c': who, 'found': h['found'], 's': S(h['spid']) if h['found'] else 0,
                          'delivered': len(reqs), 'target': target, 'variant': att['variant'],
                          'keys_ok': all(keys.get(r['target_pid']) == r['target_key'] for r in reqs)})
+    lookup_pids = [h['pid'] for h in hooks if h['ev'] == 'cancel_lookup']
+    for st in strays:
+        k = st['origin']
+        recs.append({'ev': 'cancel_stray', 'c': P(lookup_pids[k]) if 0 <= k < len(lookup_pids) else 0,
+                     'origin': 'listener_down' if k >= 0 else 'none',
+                     'target': S(st['req']['target_pid']) if st['req']['target_pid'] in spid else -1,
+                     'used_by_other': st['used_by_other']})
     recs.append({'ev': 'end_hooks'})
     return {'recs': recs, 'nc': max(1, len(pid)), 'ns': max(1, len(spid))}
 
